@@ -277,7 +277,6 @@ OUTSIDE = {     # domain violation -> rules the strict reader may name (any of t
     'bad-version': ('header',),
     'object-zero': ('unaccounted-bytes', 'overlapping-spans', 'entry-offset'),
     'two-generations': ('unaccounted-bytes', 'overlapping-spans', 'entry-offset'),
-    'above-max-id': ('unaccounted-bytes', 'overlapping-spans', 'Size', 'entry-offset'),
     'stale-length': ('stream-Length', 'object-syntax'),
     'no-length': ('stream-Length',),
     'trailer-prev': ('Prev', 'startxref-target', 'xref-keyword', 'unaccounted-bytes', 'eof-marker', 'entry-offset', 'fuel'),
@@ -333,9 +332,13 @@ def gen_cases(rng, tier):
         fmt = rng.choice(['table', 'stream'])
         r = rng.random()
         if r < 0.12:
-            out = rng.choice(sorted(OUTSIDE))
+            out = rng.choice(sorted(OUTSIDE) + ['above-max-id'])
             doc, sops, ids, max_id, g = gen_doc(rng, reals, outside=out)
-            cases.append((L('plain', fmt, doc, sops), {'kind': 'outside-' + out, 'outside': out, 'nontrivial': True}))
+            if out == 'above-max-id':
+                # in the domain since /repo 19ab1a6: Document::save raises max_id to the largest object number first
+                cases.append((L('plain', fmt, doc, sops), {'kind': 'plain-above-max-id', 'nontrivial': True}))
+            else:
+                cases.append((L('plain', fmt, doc, sops), {'kind': 'outside-' + out, 'outside': out, 'nontrivial': True}))
         elif r < 0.55:
             doc, sops, ids, max_id, g = gen_doc(rng, reals)
             cases.append((L('plain', fmt, doc, sops), {'kind': 'plain-' + fmt, 'nontrivial': len(ids) >= 1}))
